@@ -160,6 +160,8 @@ func (p *printer) ws(kind string, depth int) {
 	case "":
 	case "h":
 		switch p.v {
+		case 1:
+			p.sb.WriteString("\t") // tabs only: still horizontal whitespace
 		case 2:
 			p.sb.WriteString(" \t ")
 		default:
@@ -221,7 +223,9 @@ func (p *printer) attrs(as []Attr, depth int) {
 				fmt.Fprintf(&p.sb, "%s%s?={ env.C(%s) }", sep, a.N, num(a.C))
 			}
 		case "expr":
-			if p.v == 1 {
+			if p.v == 3 && p.odd&OddExprComment != 0 {
+				fmt.Fprintf(&p.sb, "%s%s={ env.E(%s) /* c */ }", sep, a.N, num(a.E))
+			} else if p.v == 1 {
 				fmt.Fprintf(&p.sb, "%s%s={env.E(%s)}", sep, a.N, num(a.E))
 			} else {
 				fmt.Fprintf(&p.sb, "%s%s={ env.E(%s) }", sep, a.N, num(a.E))
@@ -555,6 +559,19 @@ func TemplateBodyOdd(prog []Node, v Variant, odd int) string {
 	p.trimToLine()
 	p.sb.WriteString("\n")
 	return p.sb.String()
+}
+
+// HeaderV is Header plus a script template and a css template whose closing braces are indented in the
+// non-canonical spellings (the script body is hashed into the generated function name, so any change the formatter
+// makes to it changes the program).
+func HeaderV(pkg string, v Variant) string {
+	h := Header(pkg)
+	switch v {
+	case 0:
+		return h + "script greet(a string) {\n\talert(a);\n}\n\ncss boxed() {\n\tcolor: red;\n}\n\n"
+	default:
+		return h + "script greet(a string) {\n\talert(a);\n\t}\n\ncss boxed() {\n\tcolor: red;\n\t}\n\n"
+	}
 }
 
 // Header of every generated .templ file: the fixed helper components of the spec.
